@@ -9,7 +9,7 @@ decided on implementation traces by `ML.Mon` (both variants) and kept open as a 
 -/
 import SwimVerif.Model.MapLane
 import SwimVerif.Proofs.ValueLane
-import SwimVerif.Proofs.C03Bridge
+import SwimVerif.Proofs.C03Lines
 
 set_option linter.unusedVariables false
 namespace SwimVerif.ML
@@ -142,11 +142,13 @@ theorem C03_snapshot_consistent_typed (ops : List Op) (hf : syncIdsFresh [] ops 
     traceOkT {} {} ops = true :=
   traceOkT_init ops hf hl
 
-/-- **Snapshot consistency on lines**: the same for `modelTraceOk`, for every trace whose rendered lines parse back
-to what was rendered (`lineProtoOk`, decidable; a statement about the line protocol, not about the lane). -/
-theorem C03_snapshot_consistent_partial (ops : List Op) (hf : syncIdsFresh [] ops = true) (hl : ops.length < M64)
-    (hp : lineProtoOk {} ops = true) : modelTraceOk {} {} ops = true := by
-  rw [modelTraceOk_eq_traceOkT ops {} {} hp]
+/-- **Snapshot consistency** (`C03_snapshot_consistent_open` for every trace shorter than 2^64): for every sequence
+of lane operations with fresh sync ids, the monitor — run on the rendered lines, exactly as the check runs it on
+implementation traces — accepts the model's trace. (`Proofs/C03Lines.lean`: every line of the protocol parses back to
+what was rendered, so the line-level predicate equals the typed one.) -/
+theorem C03_snapshot_consistent_partial (ops : List Op) (hf : syncIdsFresh [] ops = true) (hl : ops.length < M64) :
+    modelTraceOk {} {} ops = true := by
+  rw [modelTraceOk_eq]
   exact traceOkT_init ops hf hl
 
 /-- **The invariant behind it, on every reachable state** (lane and monitor run side by side). -/
@@ -175,7 +177,7 @@ theorem C03_quiescent_converged (ops : List Op) (hf : syncIdsFresh [] ops = true
         | nil => rfl
         | cons p ps => simp [hpd] at hpe
 
-/-- The full statement (no bound on the length, no hypothesis on the line protocol). Not provable as it stands for
+/-- The full statement (no bound on the length). Not provable as it stands for
 the model: with 2^64 entries queued the epoch of a new entry wraps onto the head's (`EQ.push`: `(head + len) % 2^64`),
 a later update of that key overwrites the head entry and an event is lost — the real `Vec` cannot hold that many
 entries, so this is an artefact of the unbounded lists of the model, not a defect. -/
